@@ -6,6 +6,10 @@ HERE = os.path.dirname(os.path.dirname(os.path.abspath(__file__)))
 props = [json.loads(l) for l in open(os.path.join(HERE, "properties.jsonl"))]
 
 CLAIMS = {
+ "C02": dict(
+  technique="custom static checker: per-iteration path enumeration of the registry loop (call counting with callee summaries over all runOneTest overrides), who-writes analysis of next_/tests_/array elements, exhaustive constant folding of match() over all filter lists up to length 3 x all outcomes, of TestFilter::match over its 16 valuations, of swap and of relinkTestsInOrder for 0..4 entries, structural bounds of the shuffle/reverse loops",
+  text="Decides the accounting identity tests = run + ignored + filtered per iteration of the registry loop for every path and every runOneTest override; the selection predicate (AND of two ORs over the filter lists, strict/substring/inverted truth table); that shuffle and reverse only swap in-range entries of an array filled with every list element and relink all of them in array order before the registry stores the new head; and that group start/end notifications are emitted exactly by the groupStart/endOfGroup transition. String comparison semantics and the random source are not decided.",
+  note="Trusted: clang AST/CFG; folding bounds (lists <= 3, arrays <= 4) cover every state of the uniform loop transitions; user tests do not rewire the registry."),
  "C01": dict(
   technique="custom static checker over clang CFGs with exceptional edges added per try/catch: path enumeration of Utest::run with every SetJmp call allowed to return 0, return 1 or raise; must-call/ordering rules on failWith, addFailure, terminators (class-hierarchy closure: no normal exit), jump-buffer depth effect per handler, finite-partition constant folding of isFailure and of the runner's exit expression, literal/label table of the summary printer",
   text="Decides, for every path through the lifecycle code (not for sampled test programs): body only after a completed setup, teardown on every returning path including every catch handler, one failure record per escaped exception and none for the framework's own exception, every terminator override never returns, the jump-buffer depth is restored by every handler (the '11th consecutive failing test' clause), isFailure's truth table, a fresh TestResult per repetition with monotone accumulators and a zero exit value iff both are zero, the OK/Errors summary with each counter under its label, pre/post bracketing and plugin chain order; thorough adds the -fno-exceptions build. Counts for concrete programs are not decided.",
